@@ -288,7 +288,7 @@ func (g *G) fnArgsFor(fn string) string {
 		if g.chance(0.4) {
 			return ""
 		}
-		return choose(g, `"later"`, `"in development"`, `""`, `"parameter"`, `"not  yet.  Ask  ops"`, "\"tab\there \"", `" x "`, `"first", "second"`, `"only the first counts", "x", "y"`, `"", "ignored"`)
+		return choose(g, `"later"`, `"in development"`, `""`, `"parameter"`, `"not  yet.  Ask  ops"`, "\"tab\there \"", `" x "`, `"first", "second"`, `"only the first counts", "x", "y"`, `"", "ignored"`, `"50\x25 done"`, `"100\u0025d of it"`, `"\045s and \x25v"`)
 	case "FnTyped":
 		return choose(g, `2, 10, "s"`, `1.5, 3, "x y"`, `0, -4, ""`, `7, 0, "é"`)
 	}
@@ -307,7 +307,7 @@ func (g *G) argument(svcBefore, params []string) cfg.Val {
 	case k == 10:
 		return cfg.Str("$gontainer")
 	case k < 13:
-		return cfg.Str(choose(g, "!value ", "!value  ", "!value\t", "!value \t ") + g.valueExpr())
+		return cfg.Str(choose(g, "!value ", "!value  ", "!value\t", "!value \t ", "!value\n", "!value \n  ", "!value\r\n") + g.valueExpr())
 	case k < 15 && len(params) > 0:
 		return cfg.Str("%" + params[g.pick(len(params))] + "%")
 	default:
@@ -366,7 +366,8 @@ func Behaviour(r *rand.Rand, o Opts) *cfg.Config {
 		// names that are string prefixes of each other, of referenced paths, or of / equal to the packages the template imports
 		cand = []cfg.KS{{K: "f", V: "fixt/pa"}, {K: "fm", V: "fixt/pb"}, {K: "fmt", V: "fixt/deep/pa"}, {K: "o", V: "fixt/x-y.v2"}, {K: "os", V: "fixt/fmt"},
 			{K: "github.com", V: "fixt/os"}, {K: "github", V: "fixt"}, {K: "e", V: "fixt"}, {K: "errors", V: "fixt/deep"}, {K: "a", V: "fixt/pa"}, {K: "ab", V: "fixt/pb"}, {K: "abc", V: "fixt/os"},
-			{K: "c", V: "fixt/fmt"}, {K: "context", V: "fixt/pa"}, {K: "reflect", V: "fixt/pb"}, {K: "strconv", V: "fixt/deep/pa"}, {K: "fixt", V: "fixt/pb"}, {K: "fi", V: "fixt/pa"}, {K: "g", V: "fixt/pa"}}
+			{K: "c", V: "fixt/fmt"}, {K: "context", V: "fixt/pa"}, {K: "reflect", V: "fixt/pb"}, {K: "strconv", V: "fixt/deep/pa"}, {K: "fixt", V: "fixt/pb"}, {K: "fi", V: "fixt/pa"}, {K: "g", V: "fixt/pa"},
+			{K: "aux", V: "fixt/pa"}, {K: "con", V: "fixt/pb"}, {K: "nul", V: "fixt/os"}, {K: "com1", V: "fixt/deep/pa"}, {K: "LPT9", V: "fixt"}, {K: "prn.x", V: "fixt/deep"}}
 	}
 	r.Shuffle(len(cand), func(i, j int) { cand[i], cand[j] = cand[j], cand[i] })
 	g.aliases = cand[:g.pick(len(cand)+1)]
@@ -1071,6 +1072,23 @@ func (g *G) addGetters() {
 		}
 		if t != "" {
 			s.Type = cfg.P(t)
+		}
+	}
+	// a service that is switched off with `todo: true` but keeps its definition keeps its getter line too - the one it had, or (after
+	// a copy-and-paste) the one of a neighbour: a placeholder has no accessors, so nothing collides
+	for i := range c.Services {
+		s := &c.Services[i]
+		if !s.IsTodo() || s.Constructor == nil && s.Value == nil && s.Type == nil {
+			continue
+		}
+		for j := range c.Services {
+			if o := &c.Services[j]; j != i && o.Getter != nil && !o.IsTodo() && g.chance(0.5) {
+				s.Getter = cfg.P(*o.Getter)
+				if o.Type != nil {
+					s.Type = cfg.P(*o.Type)
+				}
+				break
+			}
 		}
 	}
 }
